@@ -11,4 +11,6 @@ var Signals = []os.Signal{
 	syscall.SIGINT,
 	syscall.SIGQUIT,
 	syscall.SIGTERM,
+	syscall.SIGHUP,
+	syscall.SIGPIPE,
 }
